@@ -161,6 +161,8 @@ def execute(case):
         kids = [child0]
 
         def factory():
+            if len(kids) > 64:
+                raise RuntimeError("runaway: the pool keeps asking its factory for children")
             c = RecPool(supply=0, demand=1, utilisation=1.0, allocation=1.0)
             kids.append(c)
             return c
@@ -246,7 +248,8 @@ def build_ctl(scn, pool, log, interval):
                 r = scn["res"][rid]
                 return None if r == NONE else r / 16
             return rule
-        return Stepwise(pool, mk(scn["base"]), *[(thr / 16, mk(rid)) for thr, rid in scn["rules"]], interval=interval)
+        kw = {} if interval == 1 else {"interval": interval}   # the documented default is left to the default
+        return Stepwise(pool, mk(scn["base"]), *[(thr / 16, mk(rid)) for thr, rid in scn["rules"]], **kw)
     if k == "switch":
         class LoggingLinear(LinearController):
             def regulate(self, iv):
